@@ -449,7 +449,7 @@ Definition check_C16 (kind : string) (input output : J) : verdict :=
     (* free-running threads: the model's answer for EVERY schedule is the closed form of
        c16_no_lost_update, so no schedule needs to be known *)
     match input, output with
-    | JL [JI nt; JI per; JI v; JI init], JL [JS _; jsnap] =>
+    | JL [JS _; JI nt; JI per; JI v; JI init], JL [JS _; jsnap] =>
         match dec_metrics jsnap with
         | Some snap =>
             let total := ((if init <? 0 then 0 else init) + nt * per * v)%Z in
